@@ -51,13 +51,11 @@ JudgeMerge1(e) ==
 \* a fragment with two attachment points completed on its own: every boundary is expanded or closed, the heavy
 \* atoms are those of the fragment plus the compounds named by the reported rules; which rules are reported is
 \* predicted boundary by boundary (model conformance)
-RECURSIVE RulesOfAll(_, _)
-RulesOfAll(bs, k) == IF k > Len(bs) THEN <<>> ELSE OneRules(tabs.merge, tabs.expand, bs[k]) \o RulesOfAll(bs, k + 1)
-BagOf(seq) == [x \in {seq[j] : j \in 1..Len(seq)} |-> Cardinality({j \in 1..Len(seq) : seq[j] = x})]
 JudgeMerge1m(e) ==
     Common(e)
     \o (IF e.raised = "" /\ e.parses
-        THEN Fails(e, "DRIFT_ReportedRulesExplained", BagOf(e.rules) = BagOf(RulesOfAll(e.b, 1)))
+        THEN Fails(e, "DRIFT_ReportedRulesExplained",
+                   BagOfSeq(e.rules) = BagOfSeq(ManyRules(tabs.merge, tabs.expand, e.b, 1, "all")))
         ELSE <<>>)
 
 Judge(e) == CASE e.ev = "rules" -> <<>>
